@@ -9,6 +9,8 @@ import (
 	"path/filepath"
 	"sort"
 	"strings"
+	"sync"
+	"time"
 
 	"github.com/MichaelMure/git-bug/entities/bug"
 	"github.com/MichaelMure/git-bug/entities/identity"
@@ -20,18 +22,29 @@ import (
 // Namespace is the local-storage directory name git-bug uses under .git
 const Namespace = "git-bug"
 
-// ScratchRoot returns a per-process scratch directory on tmpfs (fallback: $TMPDIR).
+var scratchOnce struct {
+	sync.Once
+	dir string
+}
+
+// ScratchRoot returns a scratch directory on tmpfs (fallback: $TMPDIR) that is private to this
+// process: the name carries the pid and the start time (pids are reused; a directory left behind
+// by a killed process must never be mistaken for ours).
 func ScratchRoot() string {
-	base := "/dev/shm"
-	if st, err := os.Stat(base); err != nil || !st.IsDir() {
-		base = os.TempDir()
-	}
-	if v := os.Getenv("VERIF_SCRATCH"); v != "" {
-		base = v
-	}
-	d := filepath.Join(base, fmt.Sprintf("verif.%d", os.Getpid()))
-	_ = os.MkdirAll(d, 0o755)
-	return d
+	scratchOnce.Do(func() {
+		base := "/dev/shm"
+		if st, err := os.Stat(base); err != nil || !st.IsDir() {
+			base = os.TempDir()
+		}
+		if v := os.Getenv("VERIF_SCRATCH"); v != "" {
+			base = v
+		}
+		d := filepath.Join(base, fmt.Sprintf("verif.%d.%d", os.Getpid(), time.Now().UnixNano()))
+		_ = os.RemoveAll(d)
+		_ = os.MkdirAll(d, 0o755)
+		scratchOnce.dir = d
+	})
+	return scratchOnce.dir
 }
 
 // World is a set of replica repositories and bare remotes below one directory.
@@ -49,6 +62,10 @@ func IsolateEnv(dir string) {
 	os.Setenv("HOME", filepath.Join(dir, "home"))
 	os.Setenv("XDG_CONFIG_HOME", filepath.Join(dir, "home", ".config"))
 	os.Setenv("GIT_CONFIG_NOSYSTEM", "1")
+	if os.Getenv("DBUS_SESSION_BUS_ADDRESS") == "" {
+		// child processes linking the keyring library would otherwise autolaunch (and leak) a dbus-daemon
+		os.Setenv("DBUS_SESSION_BUS_ADDRESS", "unix:path=/nonexistent")
+	}
 	os.Unsetenv("GIT_DIR")
 }
 
